@@ -17,7 +17,8 @@ def one(sid):
         shutil.copy(d + "/patch.diff", tmp + "/patch.diff")
         for f in glob.glob(d + "/*_test.go.txt"):
             shutil.copy(f, os.path.join(tmp, os.path.basename(f)[:-4]))
-        p = subprocess.run(["python3", "/verif/tools/seedeval.py", prop, tmp, "--skip-suite"], capture_output=True, text=True, cwd="/verif")
+        chk = sorted(set([prop] + list(meta.get("caught_by") or []) + list((meta.get("checks") or {}).keys())))
+        p = subprocess.run(["python3", "/verif/tools/seedeval.py", prop, tmp, "--skip-suite", "--checks", ",".join(chk)], capture_output=True, text=True, cwd="/verif")
         try:
             r = json.loads(p.stdout[p.stdout.index("{"):])
         except Exception:
